@@ -40,7 +40,7 @@ COARSE_TOL = 6e-2  # 12-point grid: measured discrepancy of correct code <= 1.3e
 
 def budget(tier):
     if tier == "quick":
-        return dict(max_examples=15, shards=3, wall_s=240, shrink_s=0)
+        return dict(max_examples=14, shards=7, wall_s=240, shrink_s=0)
     return dict(max_examples=120, shards=8, wall_s=3000, shrink_s=0)
 
 
@@ -128,7 +128,7 @@ def strategy(tier):
         return case
 
     # cheap coarse-grid cases cover the path shapes broadly; few full cases carry the stated accuracy claim
-    return st.one_of(build(), *[build().map(coarsen)] * 6)
+    return st.integers(0, 6).flatmap(lambda i: build() if i == 0 else build().map(coarsen))
 
 
 def evolve(card, p_from, p_to, xs, f):
@@ -168,7 +168,9 @@ def check_case(case):
                 c = copy.deepcopy(card)
                 c.update(init=a_, mugrid=[b_], xgrid=xs, cores=1)
                 cards_.append(c)
-        outs = ru.solve_many(cards_, case.get("workers", 5))
+        # coarse-only cases solve their three operators one after the other in this process (state leaking between
+        # solves of one process is then visible); full cases use forked workers
+        outs = ru.solve_many(cards_, 1 if case.get("coarse_only") else case.get("workers", 5))
         for g, xs in enumerate(grids):
             E1, E2, Ed = (list(outs[3 * g + i].values())[0][0] for i in range(3))
             f0 = input_grid(case["pdf"], xs)
